@@ -39,6 +39,18 @@ func main() {
 	if *tier == "thorough" {
 		timeout = 60 * time.Second
 	}
+	if os.Getenv("GVC_FIELD_WRITERS") != "" {
+		fw := eng.fieldWriters()
+		var ks []string
+		for k := range fw {
+			ks = append(ks, k)
+		}
+		sort.Strings(ks)
+		for _, k := range ks {
+			fmt.Println("WRITERS", k, fw[k])
+		}
+		return
+	}
 	run := runContracts(eng, *prop, *fnFilter, *work, timeout, *tier == "thorough")
 	run.Tier = *tier
 	run.LoadSecs = eng.loadSecs
@@ -326,7 +338,7 @@ func runContracts(eng *Engine, prop, fnFilter, work string, timeout time.Duratio
 		}
 	}
 	if (prop == "" || prop == "C08") && fnFilter == "" {
-		for _, r := range eng.guardCoverage() {
+		for _, r := range append(eng.guardCoverage(), eng.guardClassification()...) {
 			if r.Verdict != "discharged" {
 				run.Failed++
 			}
